@@ -4,7 +4,7 @@
    tables GENERATED from pymwp on this run.  All theorems are for every tree respecting pycparser's
    class schema, of any size and depth. *)
 From Coq Require Import String List.
-From PM Require Import Tree Syntax Syntax_proofs_C07a Syntax_proofs_C07c Syntax_proofs_C07d.
+From PM Require Import Tree Syntax Syntax_proofs_C07a Syntax_proofs_C07c Syntax_proofs_C07d Syntax_proofs_loopmode.
 Import ListNotations.
 
 (* after the removal pass the syntax check reports fully supported *)
@@ -43,9 +43,105 @@ Theorem C07_default_mode :
   forall t r, wf_pyc t = true -> syntax_check t false = Ok r -> fst r = true /\ full (snd r) = true.
 Proof. exact default_mode_cleans. Qed.
 
+(* ---- loop mode (LoopAnalysis.run): [loop_mode_loops f strict] = the loops inspected, as
+   (path in the function f, tree inspected); [find_loops f] = FindLoops(f).loops as paths ---- *)
+
+(* strict: an inspected loop is the source loop itself, untouched, and the gate accepts it as it is *)
+Theorem C07_loop_mode_strict_sound :
+  forall f r, loop_mode_loops f true = Ok r ->
+  forall p l, In (p, l) r -> node_at p f = Some l /\ full l = true /\ is_loop l = true.
+Proof. exact Syntax_proofs_loopmode.loop_mode_strict_sound. Qed.
+
+(* strict: no fully supported loop is dropped *)
+Theorem C07_loop_mode_strict_complete :
+  forall f r ps, loop_mode_loops f true = Ok r -> find_loops f = Some ps ->
+  forall p l, In p ps -> node_at p f = Some l -> full l = true -> is_loop l = true -> In (p, l) r.
+Proof. exact Syntax_proofs_loopmode.loop_mode_strict_complete. Qed.
+
+(* strict: a loop holding an unsupported statement is not analysed at all *)
+Theorem C07_loop_mode_strict_refuses :
+  forall f r ps, loop_mode_loops f true = Ok r -> find_loops f = Some ps ->
+  forall p l, In p ps -> node_at p f = Some l -> full l = false -> ~ In p (map fst r).
+Proof. exact Syntax_proofs_loopmode.loop_mode_strict_refuses. Qed.
+
+(* strict, in one equation: FindLoops' list filtered by "gate accepts it as it is and parser.is_loop
+   keeps it" ([strict_keeps f p] = full l && is_loop l for the node l at p), loops untouched *)
+Theorem C07_loop_mode_strict_exact :
+  forall f r ps, loop_mode_loops f true = Ok r -> find_loops f = Some ps ->
+  map fst r = filter (strict_keeps f) ps /\ forall p l, In (p, l) r -> node_at p f = Some l.
+Proof. exact Syntax_proofs_loopmode.loop_mode_strict_exact. Qed.
+
+(* default: every analysed loop is the source loop after the removal pass, a tree the gate accepts *)
+Theorem C07_loop_mode_default_clean :
+  forall f r, loop_mode_loops f false = Ok r ->
+  forall p l', In (p, l') r ->
+  exists l, node_at p f = Some l /\ syntax_check l false = Ok (true, l') /\ is_loop l' = true /\
+            (wf_pyc l = true -> full l' = true).
+Proof. exact Syntax_proofs_loopmode.loop_mode_default_clean. Qed.
+
+Theorem C07_loop_mode_default_clean_wf :
+  forall f r, wf_pyc f = true -> loop_mode_loops f false = Ok r ->
+  forall p l', In (p, l') r ->
+  exists l, node_at p f = Some l /\ ast_mod l = Ok l' /\ is_loop l' = true /\ full l' = true.
+Proof. exact Syntax_proofs_loopmode.loop_mode_default_clean_wf. Qed.
+
+(* default: a listed loop is dropped only if parser.is_loop refuses it AFTER its removal pass ... *)
+Theorem C07_loop_mode_default_complete :
+  forall f r ps, loop_mode_loops f false = Ok r -> find_loops f = Some ps ->
+  forall p l v l', In p ps -> node_at p f = Some l -> syntax_check l false = Ok (v, l') -> is_loop l' = true ->
+  In (p, l') r.
+Proof. exact Syntax_proofs_loopmode.loop_mode_default_complete. Qed.
+
+(* ... which happens: a loop whose body is only unsupported statements is cleaned to an empty body *)
+Theorem C07_loop_mode_default_drops_emptied :
+  wf_pyc lm_fn2 = true /\ find_loops lm_fn2 = Some [lm_p0; lm_p1] /\
+  is_loop lm_loop_only_call = true /\
+  syntax_check lm_loop_only_call false = Ok (true, h_while (h_block [])) /\
+  is_loop (h_while (h_block [])) = false /\
+  loop_mode_loops lm_fn2 false = Ok [(lm_p1, lm_loop_clean)] /\
+  loop_mode_loops lm_fn2 true = Ok [(lm_p1, lm_loop_clean)].
+Proof. exact Syntax_proofs_loopmode.lm_fn2_default_drops. Qed.
+
+(* both modes: the analysed loops are a subsequence of FindLoops' list, same order
+   ([sublist l l']: l is l' with some elements left out; [kept f strict p]: the test run on the loop at p) *)
+Theorem C07_loop_mode_order :
+  forall f strict r ps, loop_mode_loops f strict = Ok r -> find_loops f = Some ps -> sublist (map fst r) ps.
+Proof. exact Syntax_proofs_loopmode.loop_mode_order. Qed.
+
+Theorem C07_loop_mode_filter :
+  forall f strict r ps, loop_mode_loops f strict = Ok r -> find_loops f = Some ps ->
+  map fst r = filter (kept f strict) ps.
+Proof. exact Syntax_proofs_loopmode.loop_mode_filter. Qed.
+
+(* non-vacuity: two loops, the first holds a call; strict analyses exactly the clean one,
+   default both, the first without the call *)
+Theorem C07_loop_mode_example :
+  wf_pyc lm_fn = true /\ find_loops lm_fn = Some [lm_p0; lm_p1] /\
+  node_at lm_p0 lm_fn = Some lm_loop_call /\ node_at lm_p1 lm_fn = Some lm_loop_clean /\
+  full lm_loop_call = false /\ full lm_loop_clean = true /\ full lm_loop_call_cleaned = true.
+Proof. exact Syntax_proofs_loopmode.lm_fn_shape. Qed.
+Theorem C07_loop_mode_example_strict : loop_mode_loops lm_fn true = Ok [(lm_p1, lm_loop_clean)].
+Proof. exact Syntax_proofs_loopmode.lm_fn_strict. Qed.
+Theorem C07_loop_mode_example_default :
+  loop_mode_loops lm_fn false = Ok [(lm_p0, lm_loop_call_cleaned); (lm_p1, lm_loop_clean)].
+Proof. exact Syntax_proofs_loopmode.lm_fn_default. Qed.
+
 Print Assumptions C07_idempotent_full.
 Print Assumptions C07_supported_untouched.
 Print Assumptions C07_insert.
 Print Assumptions C07_insert_under_label_refuted.
 Print Assumptions C07_strict.
 Print Assumptions C07_default_mode.
+Print Assumptions C07_loop_mode_strict_sound.
+Print Assumptions C07_loop_mode_strict_complete.
+Print Assumptions C07_loop_mode_strict_refuses.
+Print Assumptions C07_loop_mode_strict_exact.
+Print Assumptions C07_loop_mode_default_clean.
+Print Assumptions C07_loop_mode_default_clean_wf.
+Print Assumptions C07_loop_mode_default_complete.
+Print Assumptions C07_loop_mode_default_drops_emptied.
+Print Assumptions C07_loop_mode_order.
+Print Assumptions C07_loop_mode_filter.
+Print Assumptions C07_loop_mode_example.
+Print Assumptions C07_loop_mode_example_strict.
+Print Assumptions C07_loop_mode_example_default.
